@@ -916,8 +916,8 @@ func TestC18VerdictRandom(t *testing.T) {
 		n := rapid.IntRange(1, 4).Draw(rt, "replicas")
 		drawLog := func(label string) []int {
 			f := forkLog{Len: rapid.IntRange(0, 10).Draw(rt, label+"len")}
-			if rapid.IntRange(0, 2).Draw(rt, label+"diverges") == 0 {
-				f.Div = rapid.IntRange(0, 10).Draw(rt, label+"div")
+			if rapid.Bool().Draw(rt, label+"diverges") {
+				f.Div = rapid.IntRange(0, max(f.Len-1, 0)).Draw(rt, label+"div")
 				f.Branch = rapid.IntRange(1, 2).Draw(rt, label+"branch")
 			}
 			return f.labels()
